@@ -92,11 +92,15 @@ def containment_pass_edges(g: Graph, names: set[str], preds: set[str]) -> set[tu
 
 
 def check_value(chk: Check, g: Graph, defs: Defs, use: Node, var: str, preds: set[str], fi: FunctionInfo, what: str, rule="P1", _depth=0, _seen=None) -> bool:
-    """Is the value of ``var`` at ``use`` resolved and contained on every path?"""
+    """Is the value of ``var`` at ``use`` the result of .resolve() and contained
+    on every path?  Follows aliases, parameters of inlined helpers and values
+    returned by inlined helpers."""
+    from ..flow import call_returns
+
     if _seen is None:
         _seen = set()
     tag = (use.id, var)
-    if tag in _seen or _depth > 6:
+    if tag in _seen or _depth > 8:
         return True
     _seen.add(tag)
     ds = defs.at(use, var)
@@ -110,7 +114,28 @@ def check_value(chk: Check, g: Graph, defs: Defs, use: Node, var: str, preds: se
         pass_edges = containment_pass_edges(g, {var}, preds)
         par = g.reach([dn.id], blocked_nodes=other, blocked_edges=pass_edges, follow=normal_only)
         guarded = use.id not in par
-        if sel is None and val is not None and _is_resolve(val):
+        v = val
+        while isinstance(v, ast.Await):
+            v = v.value
+        # parameter of an inlined helper: the argument must be safe at the call site
+        if sel == "param":
+            if v is None or not dn.stack:
+                ok = False
+                chk.finding(rule, fi.key, f"unresolved:{var}=<parameter>@{what}", f"`{var}` is a parameter whose value is unknown where it is used for {what}", dn.where())
+                continue
+            enter = g.nodes[dn.stack[-1]]
+            if guarded and _resolved_origin(defs, enter, v):
+                continue
+            if isinstance(v, ast.Name):
+                if not check_value(chk, g, defs, enter, v.id, preds, enter.func, what, rule, _depth + 1, _seen):
+                    ok = False
+                continue
+            if isinstance(v, ast.Attribute) and v.attr == "parent" and isinstance(v.value, ast.Name):
+                if not check_value(chk, g, defs, enter, v.value.id, preds, enter.func, what, rule, _depth + 1, _seen):
+                    ok = False
+                continue
+            v = v  # fall through to the generic classification below
+        if sel in (None, "param") and v is not None and _is_resolve(v):
             if not guarded:
                 ok = False
                 chk.finding(
@@ -119,19 +144,34 @@ def check_value(chk: Check, g: Graph, defs: Defs, use: Node, var: str, preds: se
                     use.where(), g.fmt_path(g.path_to(par, use.id)),
                 )
             continue
-        if sel is None and isinstance(val, ast.Name):
-            # alias: fine if the source value was resolved and checked before aliasing,
-            # or if the alias itself is checked afterwards
-            if guarded and _resolved_origin(defs, dn, val):
+        if sel is None and isinstance(v, ast.Name):
+            if guarded and _resolved_origin(defs, dn, v):
                 continue
-            if not check_value(chk, g, defs, dn, val.id, preds, fi, what, rule, _depth + 1, _seen):
+            if not check_value(chk, g, defs, dn, v.id, preds, fi, what, rule, _depth + 1, _seen):
                 ok = False
+            continue
+        if sel is None and isinstance(v, ast.Call) and call_returns(g, v):
+            # value returned by an inlined helper
+            if guarded and _resolved_origin(defs, dn, v):
+                continue
+            for rn, rv in call_returns(g, v):
+                if rv is None or (isinstance(rv, ast.Constant) and rv.value is None):
+                    continue
+                if isinstance(rv, ast.Name):
+                    if not check_value(chk, g, defs, rn, rv.id, preds, rn.func, what, rule, _depth + 1, _seen):
+                        ok = False
+                elif _is_resolve(rv):
+                    if not guarded:
+                        ok = False
+                        chk.finding(rule, fi.key, f"unchecked:{var}@{what}", f"`{var}` = `{norm(v)[:50]}` returns a resolved path that is not containment-checked before {what}", use.where())
+                else:
+                    ok = False
+                    chk.finding(rule, fi.key, f"unresolved:{var}={norm(rv)[:50]}@{what}", f"`{var}` comes from `{norm(v)[:50]}`, which returns `{norm(rv)}` - not the result of .resolve() - and is used for {what}", rn.where())
             continue
         # anything else: unresolved / extended value
         ok = False
-        desc = norm(val) if val is not None and not isinstance(val, ast.AST.__class__) else str(sel)
         try:
-            desc = norm(val) if val is not None else str(sel)
+            desc = norm(v) if v is not None else str(sel)
         except Exception:  # noqa: BLE001
             desc = str(sel)
         chk.finding(
@@ -144,6 +184,7 @@ def check_value(chk: Check, g: Graph, defs: Defs, use: Node, var: str, preds: se
 
 def _resolved_origin(defs: Defs, node: Node, e: ast.AST) -> bool:
     ls = origins(defs, node, e)
+    ls = [(n, le) for n, le in ls if not (isinstance(le, ast.Constant) and le.value is None)]
     return bool(ls) and all(not isinstance(le, _Sel) and _is_resolve(le) for _, le in ls)
 
 
@@ -152,13 +193,16 @@ def rule_p1(chk: Check, ci: ClassInfo, preds: set[str]) -> None:
     fi = ci.methods.get("handle")
     if fi is None:
         chk.floor("P1", "StaticFileHandler.handle", 0, 1)
-    g = build_cfg(chk.proj, fi)
+    from ..cfg import inline_local
+
+    pol = lambda caller, call, callee, depth, _p=preds: inline_local(caller, call, callee, depth) and callee.node.name not in _p  # noqa: E731
+    g = Builder(chk.proj, pol, 3).build(fi)
     defs = Defs(g)
     uses = []
     for n in g.nodes:
         if n.ast is None or n.kind not in ("stmt", "test", "with"):
             continue
-        for c in calls(n.ast):
+        for c in calls(n.ast if not isinstance(n.ast, ast.withitem) else n.ast.context_expr):
             mc = method_call(c)
             if mc and mc[1] in CONTENT_USES and isinstance(mc[0], ast.Name):
                 uses.append((n, mc[0].id, f"{mc[1]}()"))
@@ -173,14 +217,15 @@ def rule_p1(chk: Check, ci: ClassInfo, preds: set[str]) -> None:
         ok = check_value(chk, g, defs, n, var, preds, fi, what)
         chk.ob("P1", f"{fi.key}: {var}.{what} at {n.text(50)}", ok, evals=3)
         chk.sample({"rule": "P1", "use": n.text(80), "var": var})
-    # content uses in other methods of the class must go through handle's checked value
+    # content uses in other methods of the class must be covered by the inlined analysis of handle
+    covered = {id(c) for n in g.nodes if n.ast is not None and n.kind in ("stmt", "test", "with") for c in calls(n.ast if not isinstance(n.ast, ast.withitem) else n.ast.context_expr)}
     for name, m in ci.methods.items():
         if name == "handle":
             continue
         for c in calls(m.node):
             mc = method_call(c)
-            if mc and mc[1] in CONTENT_USES:
-                chk.finding("P1", m.key, f"use-outside-handle:{norm(c)[:50]}", "file content is read in a helper; the containment proof only covers StaticFileHandler.handle", m.loc(c))
+            if mc and mc[1] in CONTENT_USES and id(c) not in covered:
+                chk.finding("P1", m.key, f"use-outside-handle:{norm(c)[:50]}", "file content is read in a method that is not reached from StaticFileHandler.handle through local helpers: the containment proof does not cover it", m.loc(c))
 
 
 def rule_p2(chk: Check, ci: ClassInfo, preds: set[str]) -> None:
